@@ -346,3 +346,68 @@ func c07R13(c *Ctx, r *Report) {
 	r.Check(n > 0 && okCapture, rule, "modules.(*Task).runWithLocking / execution context captured under the task lock", "Task.ctx is read with t.lock held and handed to the watcher",
 		"runWithLocking does not hand the watcher a context read under the task lock")
 }
+
+// c11R14: in parseAndOr an iteration leaves "operand outstanding" cleared
+// exactly when it added an operand - a plain condition or a parenthesised group
+// - and set when it consumed a connective (and / or / not).
+func c11R14(c *Ctx, r *Report) {
+	const rule = "C11-R14"
+	r.SetFloor(rule, 4)
+	fn := c.Func("database/query.parseAndOr")
+	if fn == nil {
+		r.Undecided(rule, "database/query.parseAndOr", "anchor function missing")
+		return
+	}
+	var exp, conds *ssa.Phi
+	reach := blockReach(fn)
+	for _, b := range fn.Blocks {
+		if !reach[b][b] {
+			continue
+		}
+		for _, in := range b.Instrs {
+			ph, ok := in.(*ssa.Phi)
+			if !ok {
+				break
+			}
+			switch ph.Comment {
+			case "expectingMore":
+				if exp == nil {
+					exp = ph
+				}
+			case "conditions":
+				if conds == nil {
+					conds = ph
+				}
+			}
+		}
+	}
+	if exp == nil || conds == nil || exp.Block() != conds.Block() {
+		r.Undecided(rule, "database/query.parseAndOr / loop state", "the loop variables expectingMore / conditions were not found in one loop header")
+		return
+	}
+	hb := exp.Block()
+	n := 0
+	for i := range exp.Edges {
+		pred := hb.Preds[i]
+		if !reach[hb][pred] {
+			continue // entry edge
+		}
+		n++
+		added := conds.Edges[i] != ssa.Value(conds)
+		v, isC := constBool(exp.Edges[i])
+		cons := fmt.Sprintf("database/query.parseAndOr / loop back-edge #%d (%s)", n, map[bool]string{true: "operand added", false: "connective consumed"}[added])
+		if !isC {
+			if exp.Edges[i] == ssa.Value(exp) && !added {
+				r.OK(rule, cons, "nothing added, flag unchanged")
+				continue
+			}
+			r.Undecided(rule, cons, "the flag is not a constant on this edge")
+			continue
+		}
+		r.Check(v == !added, rule, cons, "an operand is outstanding exactly when the iteration did not add one",
+			map[bool]string{true: "after adding an operand (a parenthesised group counts) the parser still expects another one: a condition list cannot end in a group, and no clause keyword can follow one", false: "after a connective the parser no longer expects an operand: a dangling and/or/not is accepted"}[added], c.Pos(pred.Instrs[len(pred.Instrs)-1].Pos()))
+	}
+	if n == 0 {
+		r.Bad(rule, "database/query.parseAndOr / loop back-edges", "no loop iteration found (anchor lost)")
+	}
+}
